@@ -1998,10 +1998,12 @@ impl ProtocolState {
             let packet_id = pubcomp.packet_id;
             let operation_id_option = self.pending_publish_operations.get(&packet_id);
             if let Some(operation_id) = operation_id_option {
+                // the pubrel only counts as sent once it has been completely encoded
+                let is_pubrel_unsent = self.current_operation == Some(*operation_id) || self.high_priority_operation_queue.contains(operation_id);
                 let operation = self.operations.get_mut(operation_id).unwrap();
                 if let MqttPacket::Publish(publish) = &*operation.packet {
                     if publish.qos == QualityOfService::ExactlyOnce {
-                        if operation.qos2_pubrel.is_some() {
+                        if operation.qos2_pubrel.is_some() && !is_pubrel_unsent {
                             return self.complete_operation_as_success(*operation_id, Some(OperationResponse::Publish(PublishResponse::Qos2(Qos2Response::Pubcomp(pubcomp)))));
                         } else {
                             error!("[{} ms] handle_pubcomp - received a pubcomp with packet id {} for operation {} before a pubrel had been sent", self.elapsed_time_ms, packet_id, operation_id);
